@@ -6,7 +6,7 @@ package builder
 // Contracts for package builder (consumed by /verif/govc; comment-only file).
 
 //@ func (*RuleBuilder).BuildRuleFromString$1
-//@   props C08 C04 C16 C05 C14 C12 C13
+//@   props C08 C04 C16 C05 C14 C12 C13 C07
 //@   requires kc != nil && 0 <= i && i < len(kc.SortRules) && 0 <= j && j < len(kc.SortRules) && allNonNil(kc.SortRules)
 //@   returns kc.SortRules[i].Salience > kc.SortRules[j].Salience
 //@   modifies nothing
@@ -15,11 +15,11 @@ package builder
 // full build (C08, C10): on success the installed container is the freshly parsed one, well formed; on any error
 // the installed container is untouched; success iff the text is non-blank and lexes, parses and walks cleanly
 //@ func (*RuleBuilder).BuildRuleFromString
-//@   props C08 C10 C04 C16 C05 C14 C12 C13
+//@   props C08 C10 C04 C16 C05 C14 C12 C13 C07
 //@   requires builder != nil && !held(builder.buildLock)
 //@   ensures [C10] agreement: (result == nil) <==> (!blank(ruleString) && !LexErrs(ruleString) && !SynErrs(ruleString) && !SemErrs(ruleString))
 //@   ensures [C10] allornothing: result != nil ==> builder.Kc == old(builder.Kc)
-//@   ensures [C08,C04,C16,C05,C14,C12,C13] installed: result == nil ==> fresh(builder.Kc) && wfKc(builder.Kc) && len(builder.Kc.RuleEntities) > 0
+//@   ensures [C08,C04,C16,C05,C14,C12,C13,C07] installed: result == nil ==> fresh(builder.Kc) && wfKc(builder.Kc) && len(builder.Kc.RuleEntities) > 0
 //@   modifies builder.Kc
 //@   use collectsortindex(0, 1, kc.SortRules, kc.RuleEntities, kc.SortRulesIndexMap)
 //@   loop 0 invariant shape: kc != nil && fresh(kc) && wfParsed(kc) && kc.SortRulesIndexMap != nil && fresh(kc.SortRulesIndexMap) && emptymap(kc.SortRulesIndexMap) && builder.Kc == old(builder.Kc) && held(builder.buildLock)
@@ -41,7 +41,7 @@ package builder
 //@     after A0 := arr(arg0)
 //@   ensures [C10] agreement: (result == nil) <==> (!blank(ruleString) && !LexErrs(ruleString) && !SynErrs(ruleString) && !SemErrs(ruleString))
 //@   ensures [C10] allornothing: result != nil ==> builder.Kc == OLD && builder.Kc.RuleEntities == RE0 && builder.Kc.SortRulesIndexMap == IM0 && arr(builder.Kc.SortRules) == SA0 && len(builder.Kc.SortRules) == SL0
-//@   ensures [C08,C04,C16,C05,C14,C12,C13] merged: result == nil ==> builder.Kc == OLD && wfKc(builder.Kc)
+//@   ensures [C08,C04,C16,C05,C14,C12,C13,C07] merged: result == nil ==> builder.Kc == OLD && wfKc(builder.Kc)
 //@   ensures [C08] view: result == nil ==> (forall k: string :: (k in builder.Kc.RuleEntities) <==> ((k in RE0) || (k in kc.RuleEntities))) && (forall k: string :: (k in kc.RuleEntities) ==> builder.Kc.RuleEntities[k] == kc.RuleEntities[k]) && (forall k: string :: (k in RE0) && !(k in kc.RuleEntities) ==> builder.Kc.RuleEntities[k] == RE0[k])
 //@   modifies builder.Kc.RuleEntities, builder.Kc.SortRules, builder.Kc.SortRulesIndexMap
 //@   loop 0 invariant a1: newRuleEntities != nil && fresh(newRuleEntities) && builder.Kc == OLD && held(builder.buildLock) && wfParsed(kc) && fresh(kc) && len(kc.RuleEntities) > 0 && true
@@ -71,7 +71,7 @@ package builder
 //@   loop 4 decreases len(newSortRules) - rangeindex
 
 //@ func (*RuleBuilder).RemoveRules$1
-//@   props C08 C04 C16 C05 C14 C12 C13
+//@   props C08 C04 C16 C05 C14 C12 C13 C07
 //@   requires 0 <= i && i < len(newSortRuleEntities) && 0 <= j && j < len(newSortRuleEntities) && allNonNil(newSortRuleEntities)
 //@   returns newSortRuleEntities[i].Salience > newSortRuleEntities[j].Salience
 //@   modifies nothing
@@ -79,11 +79,11 @@ package builder
 
 // removal (C08): the new container holds exactly the old entities whose names are not listed (same pointers), well formed
 //@ func (*RuleBuilder).RemoveRules
-//@   props C08 C04 C16 C05 C14 C12 C13
+//@   props C08 C04 C16 C05 C14 C12 C13 C07
 //@   requires builder != nil && !held(builder.buildLock) && wfKc(builder.Kc)
 //@   ghost RE0 = builder.Kc.RuleEntities
 //@   ensures [C08] emptylist: len(ruleNames) == 0 ==> result != nil && builder.Kc == old(builder.Kc)
-//@   ensures [C08,C04,C16,C05,C14,C12,C13] installed: len(ruleNames) > 0 ==> result == nil && fresh(builder.Kc) && wfKc(builder.Kc)
+//@   ensures [C08,C04,C16,C05,C14,C12,C13,C07] installed: len(ruleNames) > 0 ==> result == nil && fresh(builder.Kc) && wfKc(builder.Kc)
 //@   ensures [C08] kept: len(ruleNames) > 0 ==> forall k: string :: (k in builder.Kc.RuleEntities) ==> (k in RE0) && builder.Kc.RuleEntities[k] == RE0[k] && (forall qi :: lo(ruleNames) <= qi && qi < hi(ruleNames) ==> at(ruleNames, qi) != k)
 //@   ensures [C08] removedonlynamed: len(ruleNames) > 0 ==> forall k: string :: (k in RE0) && !(k in builder.Kc.RuleEntities) ==> exists qi :: lo(ruleNames) <= qi && qi < hi(ruleNames) && at(ruleNames, qi) == k
 //@   modifies builder.Kc
